@@ -597,6 +597,91 @@ func ruleCtxKeys(p *Prog, r *RuleResult) {
 			}
 		}
 	}
+	// keys internal to the codec packages that a codec *constructor* consults (the LZ flavour): the factory must set
+	// the key right before every construction that reads it - all tokens of a chain share one context map, so a value
+	// left behind by an earlier token would select the wrong variant
+	ctorOfKey := map[string]map[*ssa.Function]bool{}
+	for _, f := range p.ModFns {
+		rel := p.Rel(f)
+		if rel != "transform" && rel != "entropy" {
+			continue
+		}
+		root := f
+		for root.Parent() != nil {
+			root = root.Parent()
+		}
+		if !strings.HasPrefix(root.Name(), "New") {
+			continue
+		}
+		eachInstr(f, func(i ssa.Instruction) {
+			if l, ok := i.(*ssa.Lookup); ok && isCtxMap(l.X.Type()) {
+				if k, ok := ctxKey(l.X, l.Index); ok && internalK[k] {
+					if ctorOfKey[k] == nil {
+						ctorOfKey[k] = map[*ssa.Function]bool{}
+					}
+					ctorOfKey[k][root] = true
+				}
+			}
+		})
+	}
+	var ikeys []string
+	for k := range ctorOfKey {
+		ikeys = append(ikeys, k)
+	}
+	sort.Strings(ikeys)
+	for _, k := range ikeys {
+		// selector keys only: a key that several factory cases set (to their own value). A key set in one place only is
+		// a flag with a default, and the cases that do not set it mean the default.
+		nset := 0
+		for _, f := range p.ModFns {
+			if rel := p.Rel(f); rel == "transform" || rel == "entropy" {
+				eachInstr(f, func(i ssa.Instruction) {
+					if mu, ok := i.(*ssa.MapUpdate); ok && isCtxMap(mu.Map.Type()) {
+						if kk, ok := ctxKey(mu.Map, mu.Key); ok && kk == k {
+							nset++
+						}
+					}
+				})
+			}
+		}
+		if nset < 2 {
+			continue
+		}
+		for _, f := range p.ModFns {
+			rel := p.Rel(f)
+			if rel != "transform" && rel != "entropy" {
+				continue
+			}
+			froot := f
+			for froot.Parent() != nil {
+				froot = froot.Parent()
+			}
+			if ctorOfKey[k][froot] {
+				continue // a constructor delegating to another one: the key was set for the outer construction
+			}
+			eachInstr(f, func(i ssa.Instruction) {
+				c, ok := i.(*ssa.Call)
+				if !ok || c.Call.StaticCallee() == nil || !ctorOfKey[k][c.Call.StaticCallee()] {
+					return
+				}
+				n++
+				set := false
+				eachInstr(f, func(j ssa.Instruction) {
+					if mu, ok := j.(*ssa.MapUpdate); ok && isCtxMap(mu.Map.Type()) {
+						if kk, ok := ctxKey(mu.Map, mu.Key); ok && kk == k && instrDominates(j, i) && j.Block() == i.Block() {
+							set = true
+						}
+					}
+				})
+				key := fmt.Sprintf("%s#ctx.%s-before-%s", p.FnName(f), k, c.Call.StaticCallee().Name())
+				if set {
+					r.ok(key+": set right before the construction that reads it", p.IPos(i))
+				} else {
+					r.fail(key, p.IPos(i), fmt.Sprintf("%s consults ctx[%q], which only the factory sets, but this construction is not preceded (in its own case) by an assignment of it: in a chain the value left by an earlier token selects the variant, so the codec built differs from the type recorded in the header", c.Call.StaticCallee().Name(), k))
+				}
+			})
+		}
+	}
 	r.floor(6, n, "consumed-key × side obligations")
 }
 
@@ -626,6 +711,7 @@ func ruleJobsWire(p *Prog, r *RuleResult) {
 	ws := resolveSide(p, "Writer")
 	scopeFns := ioReach(p, p.FuncOpt("io", "NewWriter"), p.FuncOpt("io", "NewWriterWithCtx"), p.MethodOpt("io", "Writer", "Write"), p.MethodOpt("io", "Writer", "Close"), ws.parent, ws.entry)
 	delete(scopeFns, ws.fn)
+	ctorScope := ioReach(p, p.FuncOpt("io", "NewWriter"), p.FuncOpt("io", "NewWriterWithCtx"))
 	// wire fields: the Writer fields the header writer loads (besides streams and flags that are not values)
 	wire := map[*types.Var]bool{}
 	eachInstr(whdr, func(i ssa.Instruction) {
@@ -780,6 +866,17 @@ func ruleJobsWire(p *Prog, r *RuleResult) {
 				return
 			}
 			n++
+			// header fields are fixed at construction: the header itself is written lazily (by the first batch, or by
+			// Close when less than jobs*blockSize bytes were buffered), so a later assignment reaches the wire or not
+			// depending on the job count and on how the caller split its writes
+			root := f
+			for root.Parent() != nil {
+				root = root.Parent()
+			}
+			if !ctorScope[root] && what != "ctx[\"blockSize\"]" {
+				r.fail(k.key(fname, "wire-field-after-construction"), p.IPos(i), fmt.Sprintf("%s, which the header writer puts on the wire, is assigned outside the constructor: the header is written at a moment that depends on the job count and on the Write partition, so whether this assignment is seen by the header does too", what))
+				return
+			}
 			if fl.Tainted(val) {
 				r.fail(k.key(fname, "jobs-to-wire"), p.IPos(i), fmt.Sprintf("%s, which the header writer puts on the wire (or which cuts the blocks), receives a value that depends on the job count: the compressed bytes differ between job counts", what))
 				return
@@ -1203,4 +1300,222 @@ func ruleModeOrder(p *Prog, r *RuleResult) {
 		})
 	}
 	r.floor(3, n, "codec constructions from task type fields")
+}
+
+// ---------------------------------------------------------------------------------------
+// R-PIDX-RANGE
+// ---------------------------------------------------------------------------------------
+
+func init() {
+	register("R-PIDX-RANGE", "the inverse BWT hands its primary indexes (stream data) to the chunk decoders only after each of them was compared with the block length on a path that rejects the block", false, rulePidxRange)
+}
+
+func rulePidxRange(p *Prog, r *RuleResult) {
+	bt := p.Pkg("transform").Type("BWT")
+	if bt == nil {
+		undecided("anchor unresolved: transform.BWT")
+	}
+	named := bt.Type().(*types.Named)
+	st, _ := named.Underlying().(*types.Struct)
+	var pidxF *types.Var
+	for i := 0; st != nil && i < st.NumFields(); i++ {
+		if a, ok := st.Field(i).Type().Underlying().(*types.Array); ok {
+			if b, ok := a.Elem().Underlying().(*types.Basic); ok && b.Kind() == types.Uint && a.Len() == 8 {
+				pidxF = st.Field(i)
+			}
+		}
+	}
+	if pidxF == nil {
+		undecided("anchor unresolved: the primary index array of transform.BWT")
+	}
+	// accessor(s) of the array: methods returning an element
+	accessor := map[*ssa.Function]bool{}
+	for _, f := range p.ModFns {
+		if f.Signature.Recv() == nil || namedOf(f.Signature.Recv().Type()) != named || f.Signature.Results().Len() != 1 {
+			continue
+		}
+		eachInstr(f, func(i ssa.Instruction) {
+			if ret, ok := i.(*ssa.Return); ok && len(ret.Results) == 1 {
+				if u, ok := stripConv(rvals(ret)[0]).(*ssa.UnOp); ok && u.Op == token.MUL {
+					if ia, ok := u.X.(*ssa.IndexAddr); ok && fieldVarOfAddr(ia.X) == pidxF {
+						accessor[f] = true
+					}
+				}
+			}
+		})
+	}
+	n := 0
+	inv := p.MethodOpt("transform", "BWT", "Inverse")
+	if inv == nil {
+		undecided("anchor unresolved: (*transform.BWT).Inverse")
+	}
+	invScope := map[*ssa.Function]bool{inv: true}
+	for _, h := range p.helperClosure(inv) {
+		invScope[h] = true
+	}
+	for _, f := range p.ModFns {
+		if f.Signature.Recv() == nil || namedOf(f.Signature.Recv().Type()) != named || f.Parent() != nil || !invScope[f] {
+			continue
+		}
+		// does f hand the whole array to other code (a slice of the field passed to a call or a go statement)?
+		var handoff ssa.Instruction
+		eachInstr(f, func(i ssa.Instruction) {
+			c := callOf(i)
+			if c == nil {
+				return
+			}
+			for _, a := range c.Args {
+				if sl, ok := a.(*ssa.Slice); ok && fieldVarOfAddr(sl.X) == pidxF {
+					handoff = i
+				}
+			}
+		})
+		if handoff == nil {
+			continue
+		}
+		n++
+		fname := p.FnName(f)
+		// a range test of an element chosen by a non-constant index, one of whose edges returns an error, before the hand-off
+		okTest := false
+		for _, b := range f.Blocks {
+			ifi := blockIf(b)
+			if ifi == nil {
+				continue
+			}
+			atom, pos := condAtom(ifi.Cond)
+			bo, ok := atom.(*ssa.BinOp)
+			if !ok {
+				continue
+			}
+			switch bo.Op {
+			case token.LSS, token.LEQ, token.GTR, token.GEQ:
+			default:
+				continue
+			}
+			isElem := func(v ssa.Value) bool {
+				v = stripConv(v)
+				if c, ok := v.(*ssa.Call); ok && c.Call.StaticCallee() != nil && accessor[c.Call.StaticCallee()] && len(c.Call.Args) == 2 {
+					_, isConst := c.Call.Args[1].(*ssa.Const)
+					return !isConst
+				}
+				if u, ok := v.(*ssa.UnOp); ok && u.Op == token.MUL {
+					if ia, ok := u.X.(*ssa.IndexAddr); ok && fieldVarOfAddr(ia.X) == pidxF {
+						_, isConst := ia.Index.(*ssa.Const)
+						return !isConst
+					}
+				}
+				return false
+			}
+			if !isElem(bo.X) && !isElem(bo.Y) {
+				continue
+			}
+			// one edge must lead straight to an error return, the other must dominate the hand-off
+			for si := 0; si < 2; si++ {
+				sc := b.Succs[si]
+				ret, isRet := sc.Instrs[len(sc.Instrs)-1].(*ssa.Return)
+				if !isRet {
+					continue
+				}
+				rv := rvals(ret)
+				if len(rv) == 0 || !isErrType(rv[len(rv)-1].Type()) || retMayBeNil(ret, len(rv)-1) {
+					continue
+				}
+				_ = pos
+				if reach(b.Succs[1-si], nil, nil)[handoff.Block()] {
+					okTest = true
+				}
+			}
+		}
+		if okTest {
+			r.ok(fname+": every primary index is range-checked (error exit) before the array is handed to the chunk decoders", p.IPos(handoff))
+		} else {
+			r.fail(fname+"#primary-indexes-unchecked", p.IPos(handoff), "the primary indexes read from the stream are handed to the chunk decoders without a range test over all of them: an index beyond the block makes a chunk decoder's bucket search run forever (the decoder hangs on a forged block)")
+		}
+	}
+	r.floor(1, n, "functions handing the primary index array to chunk decoders")
+}
+
+// ---------------------------------------------------------------------------------------
+// R-WRITE-PARTITION
+// ---------------------------------------------------------------------------------------
+
+func init() {
+	register("R-WRITE-PARTITION", "Writer.Write looks at the caller's slice only to measure and copy it: nothing else can make the output depend on how the caller split the data into Write calls", false, ruleWritePartition)
+}
+
+// onlyCopied: every use of the byte-slice value v is len/cap, re-slicing (checked recursively), being the source of a
+// copy, or being handed to a same-package helper whose parameter is used in the same ways. Returns the first other use.
+func onlyCopied(p *Prog, v ssa.Value, depth int, seen map[ssa.Value]bool) ssa.Instruction {
+	if seen[v] || depth > 6 {
+		return nil
+	}
+	seen[v] = true
+	refs := v.Referrers()
+	if refs == nil {
+		return nil
+	}
+	for _, ref := range *refs {
+		switch x := ref.(type) {
+		case *ssa.DebugRef:
+		case *ssa.Slice:
+			if x.X == v {
+				if bad := onlyCopied(p, x, depth+1, seen); bad != nil {
+					return bad
+				}
+			}
+		case *ssa.Phi:
+			if bad := onlyCopied(p, x, depth+1, seen); bad != nil {
+				return bad
+			}
+		case *ssa.Call:
+			if b, ok := x.Call.Value.(*ssa.Builtin); ok {
+				switch b.Name() {
+				case "len", "cap":
+					continue
+				case "copy":
+					if len(x.Call.Args) == 2 && x.Call.Args[1] == v && x.Call.Args[0] != v {
+						continue
+					}
+				}
+				return x
+			}
+			callee := x.Call.StaticCallee()
+			if callee == nil || callee.Blocks == nil || !p.InModule(callee) || x.Call.IsInvoke() {
+				return x
+			}
+			okAll := true
+			for k, a := range x.Call.Args {
+				if a != v {
+					continue
+				}
+				if k >= len(callee.Params) {
+					okAll = false
+					break
+				}
+				if bad := onlyCopied(p, callee.Params[k], depth+1, seen); bad != nil {
+					return bad
+				}
+			}
+			if !okAll {
+				return x
+			}
+		default:
+			return ref
+		}
+	}
+	return nil
+}
+
+func ruleWritePartition(p *Prog, r *RuleResult) {
+	f := p.Method("io", "Writer", "Write")
+	fname := p.FnName(f)
+	if len(f.Params) < 2 || !isByteSlice(f.Params[1].Type()) {
+		undecided("unexpected signature of %s", fname)
+	}
+	if bad := onlyCopied(p, f.Params[1], 0, map[ssa.Value]bool{}); bad != nil {
+		r.fail(fname+"#caller-slice-inspected", p.IPos(bad), "Write does something with the caller's slice other than measuring it and copying it into the block buffers (it inspects or keeps the bytes of this particular call): what the encoder then does can depend on where the caller cut the data, so the same bytes written in different pieces give different streams")
+	} else {
+		r.ok(fname+": the caller's slice is only measured, re-sliced and copied", p.Pos(f.Pos()))
+	}
+	r.floor(1, 1, "Write functions")
 }
